@@ -413,19 +413,13 @@ class Model():
         left_field = getattr(association, left_field_name)
         right_field = getattr(association, right_field_name)
 
-        for asset in left_field:
-            assocs = list(asset.associations)
-            assocs.remove(association)
-            asset.associations = assocs
-
-        for asset in right_field:
-            # In fringe cases we may have reflexive associations where the
-            # association was already removed when processing the left field
-            # assets therefore we have to check if it is still in the list.
-            if association in asset.associations:
-                assocs = list(asset.associations)
-                assocs.remove(association)
-                asset.associations = assocs
+        # An asset that is present in both fields lists the association
+        # twice, and it may already have been taken out of one of the fields,
+        # therefore drop every reference to the association that the assets
+        # of either field still hold.
+        for asset in list(left_field) + list(right_field):
+            asset.associations = [assoc for assoc in asset.associations
+                if assoc is not association]
 
         self.associations.remove(association)
 
